@@ -45,6 +45,15 @@ def cases_for(res, rng):
         if i % 5 == 0:
             t = (rng.choice(['and', 'or']),) + tuple(F.rand_ctl(rng, 2) for _ in range(rng.choice([5, 6, 8])))
         cases.append((K, t, 'text' if i % 4 == 0 else 'obj'))
+    # scale: very long chains and rings (depth of the reachability / SCC traversals)
+    from common import KS
+    for n in ((700,) if quick else (700, 2000)):
+        chain = KS([[i + 1] for i in range(n - 1)] + [[n - 1]], [['p'] if i < n - 3 else ['q'] for i in range(n)])
+        ring = KS([[(i + 1) % n] for i in range(n)], [['p'] if i % 7 else ['p', 'q'] for i in range(n)])
+        for K in (chain, ring):
+            for t in (('E', ('G', ('ap', 'p'))), ('A', ('U', ('ap', 'p'), ('ap', 'q'))), ('E', ('F', ('and', ('ap', 'q'), ('not', ('ap', 'p'))))),
+                      ('A', ('G', ('E', ('F', ('ap', 'q'))))), ('A', ('R', ('ap', 'q'), ('ap', 'p')))):
+                cases.append((K, t, 'obj'))
     return cases, n_exh
 
 
